@@ -359,7 +359,7 @@ def run(tier):
     prog = Program()
     res = tablecheck.get(prog)
     tablecheck.report_tables(rep, res, {ts.P + "common::SPACE_SEPARATOR"}, rule="L5")
-    common.lookup_sites(prog, rep, floor=6)
+    common.lookup_sites(prog, rep)
     # is_space_separator / is_non_ascii_space bind to the table and to SPACE
     nas = prog.body(COMMON + "is_non_ascii_space")
     if nas is None:
